@@ -66,7 +66,10 @@ LineCases ==
   \cup { C(op, << x[1], "2" >>, << x[2], "2" >>, x[3], 0, "") : op \in TwoInt, x \in SmallInt }
   \cup { C(op, << "lab_1" >>, << "lab_1" >>, 0, 0, "") : op \in OneLabel }
   \cup { C("switch", << "la", "lb" >>, << "la", "lb" >>, 0, 2, ""), C("match", << "la", "lb", "lc" >>, << "la", "lb", "lc" >>, 0, 3, ""),
-         C("switch", << "la" >>, << "la" >>, 0, 1, ""), C("match", << "la" >>, << "la" >>, 0, 1, "") }
+         C("switch", << "la" >>, << "la" >>, 0, 1, ""), C("match", << "la" >>, << "la" >>, 0, 1, ""),
+         \* a label may be repeated: every immediate counts (match pops one value per label immediate)
+         C("match", << "la", "la", "lb" >>, << "la", "la", "lb" >>, 0, 3, ""), C("switch", << "la", "lb", "la" >>, << "la", "lb", "la" >>, 0, 3, ""),
+         C("match", << "la", "la" >>, << "la", "la" >>, 0, 2, "") }
   \cup { C("replace", << x[1] >>, << x[2] >>, x[3], 1, "") : x \in IntSpell } \cup { C("replace", << >>, << >>, 0, 0, "") }
   \cup { C("int", << x[1] >>, << x[2] >>, x[3], 0, "") : x \in IntSpell }
   \cup { C("int", << nm >>, << nm >>, 0, 0, "") : nm \in { "pay", "appl", "axfer", "NoOp", "UpdateApplication", "DeleteApplication" } }
